@@ -125,6 +125,8 @@ func runC08(p *Prog, r *Report) {
 	c8SharedIdentPredicate(p, r)
 	c8EmittersCompose(p, r)
 	checkSortedIDsAs(p, r, "R8.6-documented-order")
+	c18FreshDestinationAs(p, r, "R8.8-fresh-destination")
+	ownedBytesRule(p, r, "R8.9-owned-bytes", 6, pRoot, pTypes, pParser)
 }
 
 func (c *c8ctx) anchors() bool {
